@@ -1,3 +1,18 @@
+"""C05 - each row's derived columns are the documented functions of its state."""
 LEVEL = 'proof'
-EXPLANATION = 'C05'
+EXPLANATION = ('create_trajectory_row under contract for any state: time/distance/height are the state, velocity the given speed, '
+               'Mach = speed / local speed of sound, energy and optimal game weight through calculate_energy / calculate_ogw '
+               '(each under its own contract: (weight/7000 lb) v^2 / (2 g_n) ft-lb to 1e-4 - the code\'s 450400 - and weight^2 x v^3 '
+               'x 1.5e-12 lb), target drop = signed distance to the sight line (y cos(look) - x sin(look)), look distance = '
+               'x / cos(look), drop '
+               'adjustment = atan(y/x) - look and windage adjustment = atan(windage/x) through get_correction (zero at the '
+               'muzzle: contract), angle = atan2(v.y, v.x), windage = z + spin drift. TrajectoryCalc.spin_drift: Litz formula '
+               '1.25 (Sg + 1.2) t^1.83 / 12 ft signed by the twist, zero without twist or stability. '
+               'calc_stability_coefficient: Miller Sg with the velocity (v/2800)^(1/3) and atmosphere (T, p) corrections, zero '
+               'when twist / length / diameter are missing; _init_trajectory harness: the coefficient stored for a shot is '
+               'Miller\'s for THIS shot (also on a re-used calculator). The unit constructors _new_feet/_new_fps/... return '
+               'fresh quantities with that magnitude. pow and atan are uninterpreted (A-LIBM): the clauses state the same '
+               'expression tree, so a changed constant, exponent or argument fails the equality.')
+NOT_DECIDED = ['numeric accuracy of libm pow/atan/atan2 themselves (A-LIBM)',
+               'that rows returned by should_record for interpolated range rows carry the interpolated state: C03/C11 contracts']
 EXTRA = []
